@@ -57,6 +57,10 @@ type MetricRegistry struct {
 	mu sync.Mutex
 	wg sync.WaitGroup
 
+	// lifecycle serialises Start and Stop. It is separate from mu, which the poller takes for every
+	// poll: waiting for the poller to exit while holding mu could deadlock with a poll in progress.
+	lifecycle sync.Mutex
+
 	started bool
 	stopper chan bool
 }
@@ -120,15 +124,16 @@ func NewMetricRegistryWithClient(
 
 // Start will start the metric registry polling
 func (r *MetricRegistry) Start() {
-	r.mu.Lock()
+	r.lifecycle.Lock()
 	if !r.started {
+		r.started = true
 		r.wg.Add(1)
 		go func() {
 			defer r.wg.Done()
 			r.run()
 		}()
 	}
-	r.mu.Unlock()
+	r.lifecycle.Unlock()
 }
 
 func (r *MetricRegistry) run() {
@@ -153,15 +158,15 @@ func (r *MetricRegistry) run() {
 
 // Stop will gracefully stop the registry
 func (r *MetricRegistry) Stop() {
-	r.mu.Lock()
+	r.lifecycle.Lock()
 	if !r.started {
-		r.mu.Unlock()
+		r.lifecycle.Unlock()
 		return
 	}
 	r.stopper <- true
 	r.wg.Wait()
 	r.started = false
-	r.mu.Unlock()
+	r.lifecycle.Unlock()
 }
 
 // RegisterDistribution will register a distribution sample to this registry
